@@ -74,6 +74,22 @@ func checkPlanMore(prop, tier string, n func(int, int) int, comp map[string][]st
 				"extra calls the property does not forbid (a second CheckApplies) are not judged",
 			},
 			Components: comp}
+	case "C10":
+		return &checkPlan{Prop: prop, Level: "exploration", BudgetS: n(300, 3000), Measure: "nontrivial",
+			Batches: []batchSpec{
+				{Label: "sched", Engine: "sched", Prop: "C10", Runs: n(3000, 60000), FaultFree: true},
+				{Label: "race-gomaxprocs1", Engine: "sched", Prop: "C10", Mode: "free", Race: true, MaxProcs: 1, Runs: n(20, 150), FaultFree: true},
+				{Label: "race-gomaxprocs4", Engine: "sched", Prop: "C10", Mode: "free", Race: true, MaxProcs: 4, Runs: n(24, 150), FaultFree: true},
+				{Label: "race-gomaxprocs16", Engine: "sched", Prop: "C10", Mode: "free", Race: true, MaxProcs: 16, Runs: n(30, 200), FaultFree: true},
+			},
+			Rule: "sched batch: one run = 2-8 simulated clients (real goroutines), each with a seeded list of Lint*Ex (own parsed objects), Filter, Names, Sources, ByName, BySource, WriteJSON, DefaultConfiguration and per-kind lookups over 1-4 shared registries (global and pre-filtered, with different configurations naming every configurable lint); exactly one client runs at a time and a seeded schedule (round-robin, Bernoulli p in {0.01,0.1,0.5}, PCT depth 1-5, or targeted: every client parked at the same lifecycle phase of the same lint) decides at every yield site (lint constructor, Configure, CheckApplies, Execute, registry reads) who runs next; every op's result must equal the serial twin's (same op lists, client after client, in a fresh process). race batches: the same kind of workload with 4-16 free-running clients under the Go race detector at GOMAXPROCS 1/4/16 (race report, runtime fatal error, deadlock or mismatch with the serial twin = violation). distinct_nontrivial = distinct schedules with at least one preemption inside a Lint op while the resumed client is also inside a Lint op.",
+			Assumption: []string{
+				"SetConfiguration is excluded from the concurrent alphabet (the property speaks of reading the registry)",
+				"yield sites are at lifecycle grain: two lint bodies are interleaved only at their boundaries in the sched batch; the race batches run bodies truly in parallel but their thread schedule is not controlled",
+				"the registry wrapper presents per-client copies of the lint structs around the shared real constructors and real registries",
+				"Timestamp is ignored",
+			},
+			Components: map[string][]string{"real": realComponents, "stub": append([]string{"registry wrapper shells (yield before constructor / Configure / CheckApplies / Execute / registry reads) and the baton scheduler"}, stubComponents...)}}
 	case "C01":
 		return &checkPlan{Prop: prop, Level: "fault_enumeration", BudgetS: n(240, 2400), Measure: "status_mix_cells",
 			Batches: []batchSpec{
